@@ -365,6 +365,10 @@ def r6_persist_errors(ctx, cfg):
 
 
 def run(ctx, cfg=CFG):
+    # "the latest write for a key is the one read back" rests on the index lookup precedence that C05 decides: update section
+    # before sorted section, newest entry first at every level, tombstones hide - the same rule instances are obligations here
+    from . import c05
+    c05.r3_precedence(ctx, c05.CFG)
     r6_persist_errors(ctx, cfg)
     r1_remap(ctx, cfg)
     r2_single_decode(ctx, cfg)
